@@ -83,6 +83,8 @@ def translate(pkg) -> str:
     cp = parse_file(pkg / "compile_pass.py")
     out.append(f"Definition gen_constexpr_decorators : skel := {skel(find_def(cp, 'handle_decorators', cls='CompilerPassHandleConstexpr').body)}.")
     out.append(f"Definition gen_constexpr_check : skel := {skel(find_def(cp, 'check_constexpr_function', cls='CompilerPassHandleConstexpr').body)}.")
+    out.append(f"Definition gen_modnames_import : skel := {skel(find_def(cp, 'handle_import_from', cls='CompilerPassSetModuleNames').body)}.")
+    out.append(f"Definition gen_modnames_run : skel := {skel(find_def(cp, 'run', cls='CompilerPassSetModuleNames').body)}.")
     g = parse_file(pkg / "generate_code.py")
     out.append(f"Definition gen_gather_run : skel := {skel(find_def(g, 'run', cls='CompilerPassGatherCode').body)}.")
     u = parse_file(pkg / "utils.py")
